@@ -280,7 +280,7 @@ def run(chk):
         "scaled tables replicate every row RScale times (replica number in a third column no query mentions)",
     ]
     vlib.build_harness(); chk.mark("build")
-    params = dict(ma=3, mb=3, mc=2, stride=29, stride3=37, rscale=60, rcheck=2, metastride=1, seed=chk.seed) if thorough else \
+    params = dict(ma=3, mb=3, mc=2, stride=61, stride3=101, rscale=60, rcheck=2, metastride=3, seed=chk.seed) if thorough else \
         dict(ma=2, mb=2, mc=1, stride=41, stride3=11, rscale=20, rcheck=2, metastride=5, seed=chk.seed)
     cat, cases, stats = gen_cases(chk, params); chk.mark("tlc")
     sql = {2: [render(q) for q in cat["cat2"]], 3: [render(q) for q in cat["cat3"]]}
